@@ -73,6 +73,17 @@ class QueueStorage(object):
         for index in sorted(rcpt_indexes, reverse=True):
             del envelope.recipients[index]
 
+    def _add_delivered_history(self, history, rcpt_indexes):
+        # Each round of delivered indexes refers to the recipient list as
+        # :meth:`.get` returned it at that time, i.e. without the recipients
+        # of earlier rounds. Rounds are appended highest index first, so that
+        # the history can be replayed one index at a time.
+        return list(history) + sorted(rcpt_indexes, reverse=True)
+
+    def _remove_delivered_history(self, envelope, history):
+        for index in history:
+            del envelope.recipients[index]
+
     def write(self, envelope, timestamp):
         """Writes the given envelope to storage, along with the timestamp of
         its next delivery attempt. The number of delivery attempts asociated
